@@ -205,6 +205,9 @@ def main():
         m["key"] = f'{m["file"]}:{m["start"]}:{m["repl"]}'
     print(f"{len(muts)} mutants", flush=True)
     p1 = phase1(muts, a.out, a.workers) if a.phase in ("1", "all") else {json.loads(l)["key"]: json.loads(l) for l in open(os.path.join(a.out, "phase1.jsonl"))}
+    # results recorded for an earlier state of a file (offsets have moved since) are not used
+    cur = {m["key"] for m in muts}
+    p1 = {k: v for k, v in p1.items() if k in cur}
     from collections import Counter
     c1 = Counter(v["result"] for v in p1.values())
     print("phase 1:", dict(c1), flush=True)
